@@ -3,7 +3,7 @@ import brokercheck, monitors
 
 
 def run(res):
-    brokercheck.run(res, "C02", "Props/C02.v", monitors.monitor_c02, focus="restart")
+    brokercheck.run(res, "C02", ["Props/C02.v", "Props/C02_history.v"], monitors.monitor_c02, focus="restart")
 
 
 def replay(path):
